@@ -1,10 +1,11 @@
 /-
 C03 — conversion offers every matching dictionary word and only dictionary words.
 
-Proved so far (model level): every word the lattice construction can push comes from the
-dictionary under exactly the key that was looked up, and only when the trie reports the key.
+Model: Chokan.Model.Kkc.  Soundness is proved for every candidate (`C03_sound`); completeness is proved
+at lattice level (`C03_head_word_is_node`): the candidate-level claim additionally needs the
+completeness of the A* enumeration (C02), which is checked per case by the executable oracle.
 -/
-import Chokan.Lemmas.Kkc
+import Chokan.Lemmas.KkcSource
 
 namespace Chokan.Props.C03
 open Chokan.Kkc Chokan.Dic
@@ -25,5 +26,54 @@ theorem C03_lookup_needs_trie (trie : List Str) (m : List (Str × List Word)) (k
     rw [← (beqStr_iff _ _).1 hb] at hk
     exact absurd hk h
   · rfl
+
+/-- **Soundness.** Every converted word inside any candidate is an entry of the loaded dictionary
+(standard or ancillary) stored under its own reading, reported present by the corresponding trie, and
+that reading is exactly the stretch of the input the part covers. -/
+theorem C03_sound (t : Tables) (input : Str) (d : Dict) (ctx : Ctx) (f : Freq) (n fuel : Nat) (cs : List Cand)
+    (hd : Dict.WF d) (hin : input ≠ []) (h : getCandidates t input d ctx f n fuel = some cs) :
+    ∀ c ∈ cs, ∀ m ∈ c.chain, ∀ e i w fw, m = Node.word e i w fw →
+      ((w.reading ∈ d.stdTrie ∧ ∃ ws, (w.reading, ws) ∈ d.std ∧ w ∈ ws) ∨
+       (w.reading ∈ d.ancTrie ∧ ∃ ws, (w.reading, ws) ∈ d.anc ∧ w ∈ ws)) ∧
+      slice input (e + 1 - w.reading.length) e = w.reading := by
+  intro c hc m hm e i w fw hmw
+  unfold getCandidates at h
+  cases hg : fromInput t input d ctx with
+  | none => simp [hg] at h
+  | some g =>
+    simp only [hg, Option.map_some, Option.some.injEq] at h
+    subst h
+    have hg0 := fromInput_ok t input d ctx hd g hg
+    have hg1 := forwardDp_ok t ctx f input g hg0
+    have hs1 := forwardDp_fromDict t ctx f d g (fromInput_fromDict t input d ctx hd g hg)
+    have hn : 0 < input.length := List.length_pos_iff.2 hin
+    obtain ⟨hchain, r, hr⟩ := nBest_chains t ctx f _ n fuel c hc
+    rw [hr] at hchain
+    obtain ⟨mid, hmid, _, _, hinG, _, _⟩ := chain_tiles input _ hg1 hn r hchain
+    have hmmid : m ∈ mid := by
+      rw [hr, hmid] at hm
+      subst hmw
+      simp only [List.mem_cons, List.mem_append, List.not_mem_nil, or_false] at hm
+      rcases hm with h | h | h
+      · cases h
+      · exact h
+      · cases h
+    obtain ⟨j, l, hj, hml⟩ := hinG m hmmid
+    have hsrc := hs1 j l hj m hml
+    have hok := (hg1.2 j l hj m hml).1
+    subst hmw
+    constructor
+    · rcases hsrc with hsrc | hsrc
+      · left; exact lookup_sound _ _ _ w hsrc
+      · right; exact lookup_sound _ _ _ w hsrc
+    · exact hok.2.2.2
+
+/-- **Completeness at the head, lattice level.** Every word the standard dictionary (trie + map) returns
+for a non-empty prefix of the input is a node of the lattice ending where that prefix ends. -/
+theorem C03_head_word_is_node (t : Tables) (input : Str) (d : Dict) (ctx : Ctx) (g : Graph)
+    (hg : fromInput t input d ctx = some g) (i : Nat) (hi : i < input.length) (w : Word)
+    (hw : w ∈ lookup d.stdTrie d.std (slice input 0 i)) :
+    ∃ l idx, g[i]? = some l ∧ Node.word i idx w (some 0) ∈ l :=
+  head_word_in_lattice t input d ctx g hg i hi w hw
 
 end Chokan.Props.C03
